@@ -55,7 +55,10 @@ def run(rep: Report):
                function="peg_parser/tokenize.py:_all_string_prefixes")
     t0 = time.time()
     srcs = pool.PY_STMTS[:45] + pool.XSH_STMTS + ["x y z\n", "def f(:\n", "f!(a)\nx y z\n", "'a' f'b{c}'\n", "p'/tmp' f'/{u}/x'\n", "a = p\"/usr\" pf\"/{name}\"\n",
-                                                  "b = \"plain\"\n", "greeting = 'Hello, ' f'dear {name}!'\n", "with! a:\n  b\n", "x = 'abc' + y\n", "$(echo! hi)\n", "f!(x, y)\n"]
+                                                  "b = \"plain\"\n", "greeting = 'Hello, ' f'dear {name}!'\n", "with! a:\n  b\n", "x = 'abc' + y\n", "$(echo! hi)\n", "f!(x, y)\n",
+                                                  # failing parses that leave a macro / bracket / string scan half-way, and valid uses of the same features after them
+                                                  "f!(a[)\n", "f!((x\n", "f!(x, [1, 2])\n", "y = g!(a)\n", "with! c:\n    # only a comment\n", "with! c:\n    b\n", "$(echo! a  b\n",
+                                                  "$(echo! a  b)\n", "x = f'{a\n", "x = f'{a}'\n", "x = \"\"\"abc\n", "s = 'a' 'b'\n", "$(ls (a))\n", "$(echo (hi))\n$(echo! hello  world)\n"]
     rounds = 3 if rep.tier == "quick" else 20
     rc, out, err = run_py("harness/purity.py", [], timeout=3600, stdin=json.dumps({"pool": srcs, "seed": rep.seed, "rounds": rounds}))
     si = StandIn("history-and-threads", f"{len(srcs)} inputs (Python, xonsh, macros, path literals, f-strings, failing ones) x {rounds} permuted histories + 8 threads; "
